@@ -406,7 +406,20 @@ This command wraps "go %s". Below is its help:
 	}
 	sharedCache.BinaryContentID = decodeBuildIDHash(splitContentID(binaryBuildID))
 
-	if err := appendListedPackages(args, true); err != nil {
+	listArgs := args
+	if command == "run" {
+		// Like "go run", only the leading .go files or else the first argument
+		// name the package; the remaining arguments belong to the program.
+		n := 0
+		for n < len(args) && strings.HasSuffix(args[n], ".go") {
+			n++
+		}
+		if n == 0 && len(args) > 0 {
+			n = 1
+		}
+		listArgs = args[:n:n]
+	}
+	if err := appendListedPackages(listArgs, true); err != nil {
 		return nil, err
 	}
 
